@@ -1,4 +1,4 @@
-(* C03 -- Verilog write -> read round trip.  Statements only; proofs in Proofs/VerilogProofs.v. *)
+(* C03 -- Verilog write -> read round trip.  Statements only; proofs in Proofs/Verilog{,Read,Rt,Eq,RtBb,EqBb}Proofs.v. *)
 From CG Require Import Verilog.ExprParse.
 From stdpp Require Import strings gmap sets.
 From CG Require Import Types Sem Cases Model.Lint Api Verilog.Ast Verilog.Read Verilog.Write Proofs.VerilogProofs Proofs.VerilogReadProofs Proofs.VerilogRtProofs Proofs.VerilogEqProofs Proofs.VerilogRtBbProofs Proofs.VerilogEqBbProofs.
@@ -109,7 +109,7 @@ Print Assumptions C03_port_mismatch_rejected.
    statements (add_g_succeeds: facts about the regenerated Gen_types tables); fold invariant J (declared inputs are `input`
    nodes, processed gates have their final node, referenced unprocessed gates are placeholder buffers) on top of
    C03_prim_instance_exact_partial; module() marks exactly the outputs and drops the three unread constants; map_eq.
-   Missing for roundtrip_identical_full: blackbox instances (named connections, pins, detached output buffers). *)
+   With blackbox instances: C03_roundtrip_identical_bb below. *)
 Theorem C03_roundtrip_identical_bbfree : ∀ C π m rsv,
   wf_rt C → c_bbs C = ∅ → no_pins (c_g C) → no_consts (c_g C) → write C false π = Ok m → list_to_set (module_ids m) ⊆ rsv →
   read rsv (bbdefs_of C) m = Ok C.
@@ -125,7 +125,7 @@ Print Assumptions C03_roundtrip_identical_bbfree.
    C02's theorems; the read succeeds (C02_read_succeeds, lemma level); by C02_read_denotes the consistent valuations of the read-back
    circuit are the models of the module, and the models of the module are the consistent valuations of the original (every emitted
    statement denotes the function of its gate: C03_beh_expr_gate_val, prim_sem_gate_val, C03_const_expr_sem).
-   Missing for roundtrip_equiv_full: blackbox instances (pins), several x constants. *)
+   Several x constants: C03_roundtrip_equiv_bbfree_x; with blackbox instances: C03_roundtrip_equiv_bb, C03_roundtrip_equiv_bb_nodes. *)
 Theorem C03_roundtrip_equiv_bbfree : ∀ C b π m rsv,
   wf_rt C → c_bbs C = ∅ → no_pins (c_g C) → no_x (c_g C) → write C b π = Ok m → list_to_set (module_ids m) ⊆ rsv →
   ∃ C', read rsv (bbdefs_of C) m = Ok C' ∧
